@@ -60,6 +60,11 @@ func ProfileFor(name string) Profile {
 		p.BatchOnly, p.MaxAuctions, p.BookBuilder, p.Blocks, p.TxPerBlock = true, 1, true, [2]int{4, 9}, 14
 		p.WInvalid, p.WCapChange, p.WModify, p.WForeign, p.WAdversary, p.WCancel = 0.02, 0.1, 0.1, 0.01, 0.0, 0.0
 		p.MaxRounds = [2]int{0, 2}
+	case "crowd": // one auction with more than a hundred bids (page sizes, sort cut-offs, anything that is fine for a few)
+		p.BatchOnly, p.MaxAuctions, p.BookBuilder, p.Blocks, p.TxPerBlock = true, 1, true, [2]int{6, 9}, 48
+		p.WInvalid, p.WCapChange, p.WModify, p.WForeign, p.WAdversary, p.WCancel, p.WParams = 0.01, 0.02, 0.03, 0.0, 0.0, 0.0, 0.0
+		p.MaxRounds, p.Vesting = [2]int{0, 1}, [2]int{0, 2}
+		p.Faults = map[string]float64{FCrashPre: 0.02}
 	case "fixed": // C06
 		p.FixedOnly, p.MaxAuctions, p.TxPerBlock = true, 3, 5
 		p.WInvalid = 0.3
@@ -385,6 +390,9 @@ func (g *gen) genBlock(bidx int, draining bool) {
 	if g.p.BookBuilder && !draining {
 		ntx = g.in(1, g.p.TxPerBlock+2)
 	}
+	if g.p.Name == "crowd" && !draining {
+		ntx = g.p.TxPerBlock
+	}
 	if draining {
 		ntx = 0
 	}
@@ -589,6 +597,11 @@ func (g *gen) genTx(pm *Model) *Tx {
 		case StStandby:
 			waiting = append(waiting, a)
 		case StStarted:
+			if a.Type == TypeBatch && a.MaxExtRound == 30 && a.ID%2 == 0 {
+				// left without bids: with nothing matched every end time extends, so that the auction goes
+				// through all of its rounds (31 end times, the documented maximum) within one history
+				continue
+			}
 			open = append(open, a)
 			if a.Type == TypeBatch {
 				batchOpen = append(batchOpen, a)
@@ -693,7 +706,7 @@ func (g *gen) txCreate(pm *Model) *Tx {
 		m.Kind = KCreateBatch
 		m.MinBidPrice = g.pick("0.1", "0.5", "1", "0.000000000000000001", "0.01")
 		m.MaxExtRound = uint32(g.in(g.p.MaxRounds[0], g.p.MaxRounds[1]))
-		if g.chance(0.02) || (g.p.Name == "rounds" && g.chance(0.05)) {
+		if g.chance(0.02) || ((g.p.Name == "rounds" || g.p.Name == "genesis") && g.chance(0.05)) {
 			m.MaxExtRound = 30 // the documented maximum: 31 end times
 		}
 		m.ExtRate = g.pick("0.05", "0.2", "0.5", "1", "0.000000000000000001", "0.333333333333333333", "0.25", "0.1",
